@@ -59,6 +59,13 @@ func filterDependencies(n *component_definition.Property, metas []*component_def
 	if len(result) == 0 {
 		return nil, errors.Errorf("inject '%s' not found available components", n)
 	}
+	//the holder itself is never a candidate
+	result = fas.Filter(result, func(m *component_definition.Meta) bool {
+		return !n.Holder.Meta.IsSelf(m)
+	})
+	if len(result) == 0 {
+		return nil, errors.Errorf("inject '%s' not found available components other than the holder itself", n)
+	}
 	//filter qualifier
 	if qualifierName, isQualifier := n.Args().Find(component_definition.ArgQualifier); isQualifier {
 		result = fas.Filter(result, func(m *component_definition.Meta) bool {
